@@ -836,3 +836,49 @@ class Patches:
 
 
 _MISSING = object()
+
+
+# --------------------------------------------------------------------------- concrete arrays indexed symbolically
+
+
+def _concretise_key(k):
+    if isinstance(k, SNum):
+        return int(k)  # forks over feasible values (bisection)
+    if isinstance(k, SBool):
+        return bool(k)
+    if isinstance(k, (list, tuple)) and has_sym(k):
+        return type(k)(_concretise_key(v) for v in k)
+    if isinstance(k, _np.ndarray) and k.dtype == object:
+        return _np.array([_concretise_key(v) for v in k.ravel().tolist()]).reshape(k.shape)
+    return k
+
+
+class CArray(_np.ndarray):
+    """Concrete (float/int) array that may be *indexed* by symbolic integers: the index is
+    concretised by forking over its feasible values, then numpy indexes as usual."""
+
+    def __getitem__(self, key):
+        return super().__getitem__(_concretise_key(key))
+
+
+class SitesProxy:
+    """Wraps a concrete pymatgen Structure so that ``sites.frac_coords[[i, j]]`` accepts symbolic i, j."""
+
+    def __init__(self, structure):
+        self._s = structure
+
+    @property
+    def frac_coords(self):
+        return _np.asarray(self._s.frac_coords).view(CArray)
+
+    def __getattr__(self, n):
+        return getattr(self._s, n)
+
+    def __len__(self):
+        return len(self._s)
+
+    def __iter__(self):
+        return iter(self._s)
+
+    def __getitem__(self, i):
+        return self._s[_concretise_key(i)]
